@@ -57,6 +57,9 @@ type Req struct {
 type Sel struct {
 	Nothing bool
 	Reqs    []Req
+	// Via: how the empty (match-everything) selector is obtained: "" labels.Everything(), "new" labels.NewSelector(),
+	// "parse" labels.Parse("") (they differ in representation - nil vs empty requirement list - not in meaning)
+	Via string
 }
 
 func (r Req) norm() Req {
@@ -592,6 +595,16 @@ func tSelector(s Sel) *Term {
 			return labels.Nothing()
 		}
 		if len(s.Reqs) == 0 {
+			switch s.Via {
+			case "new":
+				return labels.NewSelector()
+			case "parse":
+				p, err := labels.Parse("")
+				if err != nil {
+					panic(err)
+				}
+				return p
+			}
 			return labels.Everything()
 		}
 		out := labels.NewSelector()
@@ -611,6 +624,9 @@ func tSelector(s Sel) *Term {
 		name, class = "Selector(Nothing)", "Nothing"
 	case len(s.Reqs) == 0:
 		name, class = "Selector(Everything)", "Everything"
+		if s.Via != "" {
+			name = "Selector(Everything via " + s.Via + ")"
+		}
 	default:
 		var parts []string
 		for _, r := range s.Reqs {
@@ -965,6 +981,7 @@ func coreAtoms() []*Term {
 	// Selector
 	out = append(out,
 		lvl(tSelector(Sel{}), 2), lvl(tSelector(Sel{Nothing: true}), 2),
+		lvl(tSelector(Sel{Via: "new"}), 2), lvl(tSelector(Sel{Via: "parse"}), 2),
 		lvl(tSelector(Sel{Reqs: []Req{{K1, "!=", v("1")}}}), 1),
 		lvl(tSelector(Sel{Reqs: []Req{{K1, "=", v("1")}}}), 3),
 		lvl(tSelector(Sel{Reqs: []Req{{K1, "==", v("2")}}}), 3),
